@@ -12,7 +12,7 @@
 (* bracket, x is the best point evaluated so far and f(x) <= f(w) <= f(v), *)
 (* and on return |x - m| <= 2 T.                                           *)
 (***************************************************************************)
-EXTENDS Integers, FiniteSets, TLC
+EXTENDS Integers, FiniteSets, TLC, BrentCore
 CONSTANTS N, TS
 VARIABLES m, T, a, b, x, w, v, pc, seen
 vars == <<m, T, a, b, x, w, v, pc, seen>>
@@ -29,14 +29,8 @@ Stop == pc = "loop" /\ Done /\ pc' = "done" /\ UNCHANGED <<m, T, a, b, x, w, v, 
 Trial == /\ pc = "loop" /\ ~Done
          /\ \E u \in a..b : /\ Abs(u - x) >= T
                             /\ seen' = seen \cup {u}
-                            /\ IF F(u) <= F(x)
-                               THEN /\ (IF u >= x THEN a' = x /\ b' = b ELSE b' = x /\ a' = a)
-                                    /\ v' = w /\ w' = x /\ x' = u
-                               ELSE /\ (IF u < x THEN a' = u /\ b' = b ELSE b' = u /\ a' = a)
-                                    /\ x' = x
-                                    /\ IF F(u) <= F(w) \/ w = x THEN v' = w /\ w' = u
-                                       ELSE IF F(u) <= F(v) \/ v = x \/ v = w THEN v' = u /\ w' = w
-                                       ELSE v' = v /\ w' = w
+                            /\ LET n == BUpdate(BState(a, b, x, w, v, F(x), F(w), F(v)), u, F(u)) IN       \* the code's bookkeeping (BrentCore.tla)
+                               a' = n.a /\ b' = n.b /\ x' = n.x /\ w' = n.w /\ v' = n.v
          /\ UNCHANGED <<m, T, pc>>
 Next == Stop \/ Trial
 Spec == Init /\ [][Next]_vars
